@@ -5,7 +5,9 @@ A *description* is a JSON-able dict
     {"layers": [layer, ...], "n_comparams": int}
     layer   = {"name", "parent": None | 0, "dops": [dop, ...], "services": [svc, ...],
                "comparam_refs": [[comparam index, value], ...]}
-    dop     = {"name", "bits": 8|16|24|32, "type": "A_UINT32"|"A_INT32"}
+    dop     = {"name", "bits": 8|16|24|32, "type": "A_UINT32"|"A_INT32",
+               optional "compu": None (IDENTICAL) | {"offset": int, "factor": int != 0} (LINEAR),
+               optional "phys": physical base data type (default: the coded type; anything else needs LINEAR)}
     svc     = {"name", "uid", "semantic": str|None, "request": msg, "pos": [msg, ...], "neg": [msg, ...]}
     msg     = {"name", "params": [param, ...]}
     param   = {"kind": "CC", "name", "pos": int|None, "bits", "value", "type", "semantic": str|None}
@@ -32,8 +34,9 @@ from xml.sax.saxutils import escape
 XSI = 'xmlns:xsi="http://www.w3.org/2001/XMLSchema-instance"'
 SEMANTICS = [None, "DATA", "SERVICE-ID", "SUBFUNCTION", "ID"]
 INT_TYPES = ["A_UINT32", "A_INT32"]
+PHYS_TYPES = ["A_UINT32", "A_INT32", "A_FLOAT64"]
 EDIT_KINDS = ["identity", "add", "delete", "rename", "byte_position", "bit_length", "coded_value",
-              "semantic", "data_type", "linked_dop"]
+              "semantic", "data_type", "linked_dop", "dop_modified"]
 ATTR_LABEL = {  # label used by the tool for the attribute (informational, not asserted)
     "byte_position": "Byte position", "bit_length": "Bit Length", "coded_value": "Value",
     "semantic": "Semantic", "data_type": "Data type", "linked_dop": "Linked DOP object"}
@@ -155,6 +158,12 @@ def well_formed(desc) -> bool:
     for li, lay in enumerate(desc["layers"]):
         names.append(lay["name"])
         names += [d["name"] for d in lay["dops"]]
+        for d in lay["dops"]:
+            cm = d.get("compu")
+            if cm is not None and (cm["factor"] == 0 or not isinstance(cm["factor"], int)):
+                return False
+            if d.get("phys", d["type"]) not in PHYS_TYPES or (cm is None and d.get("phys", d["type"]) != d["type"]):
+                return False
         for s in lay["services"]:
             names.append(s["name"])
             for m in [s["request"]] + s["pos"] + s["neg"]:
@@ -200,6 +209,8 @@ def apply_edit(desc, edit):
         {"kind": "delete", "layer": li, "service": si}
         {"kind": "rename", "layer": li, "service": si, "name": str, "uid": str}
         {"kind": <attribute>, "layer": li, "service": si, "role": role, "param": pi, "new": value}
+        {"kind": "dop_modified", "layer": li, "dop": di, "new": {"compu": ..., "phys": ...}}  the DOP keeps its
+            id, short name and coded type; its COMPU-METHOD / PHYSICAL-TYPE change in place
     """
     new = copy.deepcopy(desc)
     k = edit["kind"]
@@ -211,6 +222,14 @@ def apply_edit(desc, edit):
         return new
     if k == "delete":
         del lay["services"][edit["service"]]
+        return new
+    if k == "dop_modified":
+        d = lay["dops"][edit["dop"]]
+        before = (d.get("compu"), d.get("phys", d["type"]))
+        d["compu"] = copy.deepcopy(edit["new"]["compu"])
+        d["phys"] = edit["new"]["phys"]
+        if before == (d["compu"], d["phys"]):
+            raise ValueError("edit does not change anything")
         return new
     svc = lay["services"][edit["service"]]
     if k == "rename":
@@ -226,6 +245,27 @@ def apply_edit(desc, edit):
         raise ValueError("edit does not change anything")
     p[field] = edit["new"]
     return new
+
+
+def dop_users(desc, dop_name):
+    """{layer short name: [service short names]}: services applicable to the layer with a VALUE parameter
+    (request or any response) that links the DOP (DOP short names are unique in a description)"""
+    out = {}
+    for li, lay in enumerate(desc["layers"]):
+        out[lay["name"]] = [s["name"] for _o, s in effective_services(desc, li)
+                            if any(p["kind"] == "VAL" and p["dop"] == dop_name
+                                   for m in [s["request"]] + s["pos"] + s["neg"] for p in m["params"])]
+    return out
+
+
+def dop_modifications(d):
+    """in-place modifications of a DOP the model can express (coded type and bit length stay)"""
+    cur = (d.get("compu"), d.get("phys", d["type"]))
+    cands = [({"offset": 0, "factor": 2}, d["type"]), ({"offset": 1, "factor": 1}, d["type"]),
+             ({"offset": 3, "factor": 5}, d["type"]), ({"offset": 0, "factor": 2}, "A_FLOAT64"),
+             ({"offset": 1, "factor": 1}, "A_INT32" if d["type"] == "A_UINT32" else "A_UINT32"),
+             (None, d["type"])]
+    return [{"compu": c, "phys": p} for c, p in cands if (c, p) != cur]
 
 
 def attribute_candidates(desc, li, si, role, pi, kind):
@@ -292,6 +332,15 @@ def _msg_xml(tag, mid, m, dopids, extra=""):
             f'</{tag}>')
 
 
+def _compu_xml(cm):
+    if cm is None:
+        return "<COMPU-METHOD><CATEGORY>IDENTICAL</CATEGORY></COMPU-METHOD>"
+    return ("<COMPU-METHOD><CATEGORY>LINEAR</CATEGORY><COMPU-INTERNAL-TO-PHYS><COMPU-SCALES><COMPU-SCALE>"
+            f"<COMPU-RATIONAL-COEFFS><COMPU-NUMERATOR><V>{cm['offset']}</V><V>{cm['factor']}</V></COMPU-NUMERATOR>"
+            "<COMPU-DENOMINATOR><V>1</V></COMPU-DENOMINATOR></COMPU-RATIONAL-COEFFS></COMPU-SCALE></COMPU-SCALES>"
+            "</COMPU-INTERNAL-TO-PHYS></COMPU-METHOD>")
+
+
 def _layer_xml(desc, li):
     lay = desc["layers"][li]
     ln = lay["name"]
@@ -306,10 +355,10 @@ def _layer_xml(desc, li):
         x.append("<DIAG-DATA-DICTIONARY-SPEC><DATA-OBJECT-PROPS>")
         for d in lay["dops"]:
             x.append(f'<DATA-OBJECT-PROP ID="{ln}.DOP.{d["name"]}"><SHORT-NAME>{d["name"]}</SHORT-NAME>'
-                     f'<COMPU-METHOD><CATEGORY>IDENTICAL</CATEGORY></COMPU-METHOD>'
+                     f'{_compu_xml(d.get("compu"))}'
                      f'<DIAG-CODED-TYPE BASE-DATA-TYPE="{d["type"]}" xsi:type="STANDARD-LENGTH-TYPE">'
                      f'<BIT-LENGTH>{d["bits"]}</BIT-LENGTH></DIAG-CODED-TYPE>'
-                     f'<PHYSICAL-TYPE BASE-DATA-TYPE="{d["type"]}"/></DATA-OBJECT-PROP>')
+                     f'<PHYSICAL-TYPE BASE-DATA-TYPE="{d.get("phys", d["type"])}"/></DATA-OBJECT-PROP>')
         x.append("</DATA-OBJECT-PROPS></DIAG-DATA-DICTIONARY-SPEC>")
     comms, rqs, prs, nrs = [], [], [], []
     for s in lay["services"]:
@@ -656,10 +705,21 @@ def pdx_apply(pdx, edit):
         {"kind": "identity"} | {"kind": "delete", "service"} |
         {"kind": "rename", "service", "name", "uid"} |
         {"kind": "add", "service": template id, "name", "uid", "param": index in its request, "new": value} |
-        {"kind": attribute, "service", "role", "param", "new"}"""
+        {"kind": attribute, "service", "role", "param", "new"} |
+        {"kind": "dop_modified", "dop": id of a DATA-OBJECT-PROP, "new": {"compu": {"offset","factor"}}}
+            IDENTICAL compu method replaced by a LINEAR one, everything else (id, name, types) kept"""
     new = pdx.clone()
     k = edit["kind"]
     if k == "identity":
+        return new
+    if k == "dop_modified":
+        d = find_by_id(new, "DATA-OBJECT-PROP", edit["dop"])
+        cm = d.find("COMPU-METHOD")
+        if cm is None or cm.findtext("CATEGORY") != "IDENTICAL":
+            raise ValueError("only IDENTICAL compu methods are rewritten")
+        at = list(d).index(cm)
+        d.remove(cm)
+        d.insert(at, ET.fromstring(_compu_xml(edit["new"]["compu"])))
         return new
     svc = find_by_id(new, "DIAG-SERVICE", edit["service"])
     parent = next(e for e in new.all_elements() if svc in list(e))
@@ -724,11 +784,37 @@ def _dop_signature(d):
             d.findtext("COMPU-METHOD/CATEGORY") == "IDENTICAL")
 
 
+def pdx_direct_dop_users(pdx, dop_id):
+    """ids of the request/response elements with a VALUE parameter linking the DOP, or None if the DOP is
+    (also) used in a way the model does not follow (structures, tables, constants, defaults, short-name refs)"""
+    parent = {c: e for e in pdx.all_elements() for c in e}
+    msgs = []
+    for el in pdx.all_elements():
+        if el.get("ID-REF") != dop_id:
+            continue
+        prm = parent.get(el)
+        if el.tag != "DOP-REF" or prm is None or prm.tag != "PARAM" or prm.get(XSI_TYPE) != "VALUE" or \
+                prm.find("PHYSICAL-DEFAULT-VALUE") is not None:
+            return None
+        msg = parent.get(parent.get(prm))
+        if msg is None or msg.tag not in ("REQUEST", "POS-RESPONSE", "NEG-RESPONSE"):
+            return None
+        msgs.append(msg.get("ID"))
+    return msgs
+
+
 def pdx_enumerate_edits(pdx):
     """every single edit of the example the model can express and keep inside the envelope"""
     snrefs, idrefs = pdx.referenced_names()
     edits = [{"kind": "identity"}]
     seen_attr = set()
+    for layer in pdx.layers():
+        for d in layer.iterfind("DIAG-DATA-DICTIONARY-SPEC/DATA-OBJECT-PROPS/DATA-OBJECT-PROP"):
+            sig = _dop_signature(d)
+            if sig is None or not sig[3] or sig[0] not in INT_TYPES or _sn(d) in snrefs:
+                continue
+            if pdx_direct_dop_users(pdx, d.get("ID")):
+                edits.append({"kind": "dop_modified", "dop": d.get("ID"), "new": {"compu": {"offset": 1, "factor": 2}}})
     for layer in pdx.layers():
         dops = eff_dops(pdx, layer)
         for svc in pdx.services(layer):
